@@ -54,6 +54,9 @@ def evaluate(prop, cases, workdir, tag):
         rec = {"case": c, "res": r, "verdict": None, "skip": None}
         recs.append(rec)
         if not r.get("parse_ok"):
+            if hasattr(prop, "verdict_expr_parse_error"):
+                items.append((c["id"], "", prop.verdict_expr_parse_error(c, r)))
+                continue
             rec["skip"] = "parse_error"
             continue
         real = coq_real(r)
@@ -117,10 +120,67 @@ def classify(prop, recs):
     return viol, disag, wfbad, broken, ok
 
 
+def main_custom(prop, tier, seed, replay, t0):
+    """Properties whose correspondence is not 'WGSL -> IR -> out' (processes, faults, timing): the module
+    provides run(tier, seed, replay) -> {"violations": [payload], "broken": [payload], "coverage": {...}}."""
+    th_ok, th_info, th_msg = theorem_side(prop)
+    okb, bout = build_driver()
+    if not okb:
+        log(bout[-3000:])
+        print("ERROR: driver build failed against the current /repo tree")
+        return 2
+    res = prop.run(tier, seed, replay)
+    lines, violations = [], 0
+    known = [k for k in load_known_findings() if k.get("property") == prop.ID and k.get("status") == "open"]
+    reported = set()
+    for v in res["violations"]:
+        hit = next((k for k in known if k.get("match") and k["match"] == v.get("kf")), None)
+        if hit:
+            if hit["id"] not in reported:
+                reported.add(hit["id"])
+                lines.append("KNOWN-FINDING: property=%s %s" % (prop.ID, hit["what"]))
+            continue
+        violations += 1
+        if violations <= 5:
+            v["property"] = prop.ID
+            lines.append("VIOLATION property=%s replay=%s" % (prop.ID, write_replay(prop.ID, v)))
+    if violations == 0:
+        why = None
+        if not th_ok:
+            why = {"what": "theorem side does not check", "detail": th_msg}
+        elif res.get("broken"):
+            why = res["broken"][0]
+        if why is not None:
+            why["property"] = prop.ID
+            why["theorems"] = prop.THEOREMS
+            violations += 1
+            lines.append("VIOLATION property=%s replay=%s no-failing-input-found" % (prop.ID, write_replay(prop.ID, why)))
+    cov = {
+        "obligations": th_info.get("obligations", 0),
+        "discharged": th_info.get("obligations", 0) if th_ok else 0,
+        "checker_cmd": "cd /verif/coq && make -j16 (coqc 8.16.1, full .vo build) + coqc Print Assumptions for %s" % ", ".join(prop.THEOREMS),
+        "trusted_base": TRUSTED_BASE + getattr(prop, "TRUSTED_EXTRA", []),
+        "theorems": prop.THEOREMS,
+        "print_assumptions": th_info.get("print_assumptions", {}),
+        "rule": prop.RULE,
+        "repo_src_hash": repo_src_hash(),
+        "known_findings_reported": sorted(reported),
+    }
+    cov.update(res["coverage"])
+    write_evidence(prop.ID, "thorough" if tier == "thorough" else "quick", seed, cov, time.time() - t0, violations,
+                   assumptions=getattr(prop, "ASSUMPTIONS", []))
+    for l in lines:
+        print(l)
+    print("%s: %d evaluations, %d violations, %.1fs" % (prop.ID, cov.get("evaluations", 0), violations, time.time() - t0))
+    return 1 if violations else 0
+
+
 def main(prop_name, tier, seed, replay=None):
     t0 = time.time()
     sys.path.insert(0, os.path.join(ROOT, "props"))
     prop = importlib.import_module(prop_name.lower())
+    if hasattr(prop, "run"):
+        return main_custom(prop, tier, seed, replay, t0)
     workdir = os.path.join(WORK, prop.ID)
     os.makedirs(workdir, exist_ok=True)
     violations = 0
@@ -216,7 +276,10 @@ def main(prop_name, tier, seed, replay=None):
         for f in r["res"].get("features") or []:
             feats[f] = feats.get(f, 0) + 1
         if prop.nontrivial(r["case"], r["res"]):
-            nontriv.add((r["res"].get("ir"), json.dumps(r["case"].get("opts"), sort_keys=True)))
+            if hasattr(prop, "distinct_key"):
+                nontriv.add(prop.distinct_key(r["case"], r["res"]))
+            else:
+                nontriv.add((r["res"].get("ir"), json.dumps(r["case"].get("opts"), sort_keys=True)))
     outcomes = {}
     for r in recs:
         k = r["res"].get("result") if r["res"].get("parse_ok") else "parse_error"
